@@ -67,20 +67,24 @@ theorem C06_file (fs : FS) (f : Nat → Str → Bool) (s : RdState) (join python
     cases hg : gate s.g node with
     | some e => exact Or.inl ⟨rfl, rfl, e, rfl, gate_not_cbfailed _ _ _ hg⟩
     | none =>
-      simp only
-      cases hf : f s.calls path with
-      | false => exact Or.inr (Or.inl ⟨rfl, rfl, by first | rfl | trivial, rfl⟩)
-      | true =>
-        simp only [Bool.not_true, Bool.false_eq_true, if_false]
+      simp only [askCallback]
+      by_cases hf : f s.calls path = true
+      · simp only [hf, Bool.not_true, Bool.false_eq_true, if_false]
         cases ha : absPath fs path with
-        | none => exact Or.inr (Or.inr (Or.inl ⟨rfl, rfl, by first | rfl | trivial, rfl⟩))
+        | none => refine Or.inr (Or.inr (Or.inl ⟨?_, ?_, ?_, ?_⟩)) <;> first | rfl | trivial
         | some a =>
           simp only
           have := readOpened_spec { fs := fs, cb := some f }
             { g := s.g, trace := s.trace ++ [Event.cb path] ++ [Event.openFile a], calls := s.calls + 1 } join python a delim comment
           simp only at this
           obtain ⟨ht, hc, hres⟩ := this
-          exact Or.inr (Or.inr (Or.inr ⟨a, rfl, by rw [ht]; simp, hc, by first | rfl | trivial, hres⟩))
+          refine Or.inr (Or.inr (Or.inr ⟨a, ?_, ?_, hc, ?_, hres⟩))
+          · first | rfl | trivial
+          · rw [ht]; simp
+          · first | rfl | trivial
+      · have hf' : f s.calls path = false := by simpa using hf
+        simp only [hf', Bool.not_false, if_true]
+        refine Or.inr (Or.inl ⟨?_, ?_, ?_, ?_⟩) <;> first | rfl | trivial
 
 def cbPaths : List Event → List Str
   | [] => []
@@ -331,6 +335,121 @@ theorem readFirst_spec (fs : FS) (f : Nat → Str → Bool) (join python : Bool)
         cases e <;> first
           | exact absurd rfl hn
           | (simp only; exact seqSpec_weaken _ _ _ _ _ _ _ hfile ((List.nil_sublist ps).cons_cons p))
+
+
+/-- the security settings of the process-wide state -/
+def secOf (g : Global) : Bool × Nat × Bool × Nat × Bool := (g.ownerSet, g.owner, g.groupSet, g.group, g.allowSymlinks)
+
+/-- the part of the process-wide state reads may change or depend on, apart from the security settings -/
+def dataOf (g : Global) : List Str × Str × Nat := (g.confDirs, g.errFile, g.errLine)
+
+/-- the result of reading an opened file does not depend on the read state -/
+theorem readOpened_result (ctx : RdCtx) (s1 s2 : RdState) (join python : Bool) (a delim comment : Str) :
+    (readOpened ctx s1 join python a delim comment).2 = (readOpened ctx s2 join python a delim comment).2 := by
+  unfold readOpened
+  cases ctx.fs.read a with
+  | none => rfl
+  | some content =>
+    simp only
+    cases parseBytes { delim := delim, comment := comment, python := python, join := join } content <;> rfl
+
+theorem readOpened_sec (ctx : RdCtx) (s : RdState) (join python : Bool) (a delim comment : Str) :
+    secOf (readOpened ctx s join python a delim comment).1.g = secOf s.g := by
+  unfold readOpened
+  cases ctx.fs.read a with
+  | none => rfl
+  | some content =>
+    simp only
+    cases parseBytes { delim := delim, comment := comment, python := python, join := join } content with
+    | error en => rfl
+    | ok st => simp only; split <;> rfl
+
+theorem readOpened_data (ctx : RdCtx) (s1 s2 : RdState) (h : dataOf s1.g = dataOf s2.g) (join python : Bool) (a delim comment : Str) :
+    dataOf (readOpened ctx s1 join python a delim comment).1.g = dataOf (readOpened ctx s2 join python a delim comment).1.g := by
+  unfold readOpened
+  unfold dataOf at h ⊢
+  simp only [Prod.mk.injEq] at h
+  cases ctx.fs.read a with
+  | none => simp only [h.1, h.2.1, h.2.2]
+  | some content =>
+    simp only
+    cases parseBytes { delim := delim, comment := comment, python := python, join := join } content with
+    | error en => simp only [h.1]
+    | ok st =>
+      simp only
+      split <;> simp only [h.1, h.2.2]
+
+theorem readOpened_trace (ctx : RdCtx) (s : RdState) (join python : Bool) (a delim comment : Str) :
+    (readOpened ctx s join python a delim comment).1.trace = s.trace ∧ (readOpened ctx s join python a delim comment).1.calls = s.calls := by
+  have := readOpened_spec ctx s join python a delim comment
+  exact ⟨this.1, this.2.1⟩
+
+
+def accepts (cb : Callback) (calls : Nat) (path : Str) : Bool :=
+  match cb with
+  | none => true
+  | some f => f calls path
+
+theorem askCallback_g (cb : Callback) (s : RdState) (path : Str) : (askCallback cb s path).1.g = s.g := by
+  cases cb <;> rfl
+
+theorem askCallback_acc (cb : Callback) (s : RdState) (path : Str) : (askCallback cb s path).2 = accepts cb s.calls path := by
+  cases cb <;> rfl
+
+/-- Two reads of the same file from related states give the same result when the gate decides
+    alike and the callbacks decide alike. -/
+theorem readFileCB_sim (fs : FS) (cb1 cb2 : Callback) (s1 s2 : RdState) (join python : Bool) (path delim comment : Str)
+    (hd : dataOf s1.g = dataOf s2.g)
+    (hg : ∀ node, fs.lstat path = some node → gate s1.g node = gate s2.g node)
+    (ha : accepts cb1 s1.calls path = accepts cb2 s2.calls path) :
+    (readFileCB { fs := fs, cb := cb1 } s1 join python path delim comment).2 = (readFileCB { fs := fs, cb := cb2 } s2 join python path delim comment).2 ∧
+    dataOf (readFileCB { fs := fs, cb := cb1 } s1 join python path delim comment).1.g = dataOf (readFileCB { fs := fs, cb := cb2 } s2 join python path delim comment).1.g ∧
+    secOf (readFileCB { fs := fs, cb := cb1 } s1 join python path delim comment).1.g = secOf s1.g ∧
+    secOf (readFileCB { fs := fs, cb := cb2 } s2 join python path delim comment).1.g = secOf s2.g := by
+  unfold readFileCB
+  cases hl : fs.lstat path with
+  | none => exact ⟨rfl, hd, rfl, rfl⟩
+  | some node =>
+    simp only
+    rw [← hg node hl]
+    cases gate s1.g node with
+    | some e => exact ⟨rfl, hd, rfl, rfl⟩
+    | none =>
+      simp only
+      have h1g := askCallback_g cb1 s1 path
+      have h2g := askCallback_g cb2 s2 path
+      have h1a := askCallback_acc cb1 s1 path
+      have h2a := askCallback_acc cb2 s2 path
+      generalize askCallback cb1 s1 path = x1 at h1g h1a ⊢
+      generalize askCallback cb2 s2 path = x2 at h2g h2a ⊢
+      obtain ⟨t1, a1⟩ := x1
+      obtain ⟨t2, a2⟩ := x2
+      simp only at h1g h2g h1a h2a ⊢
+      have : a1 = a2 := by rw [h1a, h2a, ha]
+      subst this
+      cases a1 with
+      | false =>
+        simp only [Bool.not_false, if_true]
+        refine ⟨?_, ?_, ?_, ?_⟩
+        · first | rfl | trivial
+        · rw [h1g, h2g]; exact hd
+        · rw [h1g]
+        · rw [h2g]
+      | true =>
+        simp only [Bool.not_true, Bool.false_eq_true, if_false]
+        cases absPath fs path with
+        | none =>
+          refine ⟨?_, ?_, ?_, ?_⟩
+          · first | rfl | trivial
+          · rw [h1g, h2g]; exact hd
+          · rw [h1g]
+          · rw [h2g]
+        | some a =>
+          simp only
+          refine ⟨readOpened_result _ _ _ _ _ _ _ _, ?_, ?_, ?_⟩
+          · apply readOpened_data; simp only; rw [h1g, h2g]; exact hd
+          · rw [readOpened_sec]; simp only; rw [h1g]
+          · rw [readOpened_sec]; simp only; rw [h2g]
 
 
 end Econf
